@@ -18,7 +18,7 @@ import vloop
 import setm
 
 use_repo()
-from pyplumio.const import DeviceType  # noqa: E402
+from pyplumio.const import DeviceType, FrameType  # noqa: E402
 from pyplumio.devices.ecomax import EcoMAX, SETUP_FRAME_TYPES  # noqa: E402
 from pyplumio.frames.messages import RegulatorDataMessage  # noqa: E402
 from pyplumio.frames.responses import (  # noqa: E402
@@ -41,33 +41,47 @@ SENSOR_TAIL_NO_THERMOSTATS = bytes.fromhex(
     "ffffffff28000800ffffffff28000800ffffffff28000800ffffffff280008000000a04128000800")
 
 
-def response_for(name, mixers=True):
+FT = FrameType
+
+
+def response_for(k, mixers=True, minimal=False):
+    """the controller's answer to the set-up request at table position k -- chosen by the request's FRAME TYPE
+    (what a controller sees), never by the `provides` name of the table.  `minimal`: the smallest well-formed
+    answer (empty alert log, no parameters, no schedules, empty schema, empty password)."""
     E = DeviceType.ECOMAX
-    if name == "product":
+    ft = REQ_TYPES[k]
+    if ft == FT.REQUEST_UID:
         return UIDResponse(sender=E, message=bytearray(setm.UID_PAYLOAD))
-    if name == "regdata_schema":   # two blocks
-        return RegulatorDataSchemaResponse(sender=E, message=bytearray(bytes.fromhex("0200" "040007" "0a0006")))
-    if name == "ecomax_parameters":
+    if ft == FT.REQUEST_REGULATOR_DATA_SCHEMA:   # two blocks / none (then nothing is provided: not an answer for set-up)
+        return RegulatorDataSchemaResponse(sender=E, message=bytearray(
+            b"\x00\x00" if minimal else bytes.fromhex("0200" "040007" "0a0006")))
+    if ft == FT.REQUEST_ECOMAX_PARAMETERS:
+        if minimal:
+            return setm.EcomaxParametersResponse(sender=E, message=bytearray(b"\x00\x00\x00"))
         return setm.report_frame("ecomax", (10, 0, 100))
-    if name == "total_alerts":     # one alert, still open
-        return AlertsResponse(sender=E, message=bytearray(bytes.fromhex("010001" "1a" "5493382b" "ffffffff")))
-    if name == "schedules":
+    if ft == FT.REQUEST_ALERTS:                  # one alert, still open / empty log (total_alerts only)
+        return AlertsResponse(sender=E, message=bytearray(
+            b"\x00\x00\x00" if minimal else bytes.fromhex("010001" "1a" "5493382b" "ffffffff")))
+    if ft == FT.REQUEST_SCHEDULES:
+        if minimal:
+            return setm.SchedulesResponse(sender=E, message=bytearray(b"\x00\x00\x00"))
         return setm.report_frame("schedule", (10, 0, 100))
-    if name == "mixer_parameters":
+    if ft == FT.REQUEST_MIXER_PARAMETERS:
         if mixers:
             return setm.report_frame("mixer", (10, 0, 100))
         return MixerParametersResponse(sender=E, message=bytearray(b"\x00\x00\x01\x00"))   # no mixer listed
-    if name == "thermostat_parameters":
+    if ft == FT.REQUEST_THERMOSTAT_PARAMETERS:
         return setm.report_frame("thermostat", (10, 0, 100))
-    if name == "password":
-        return PasswordResponse(sender=E, message=bytearray(b"\x040000"))
-    raise ValueError(name)
+    if ft == FT.REQUEST_PASSWORD:
+        return PasswordResponse(sender=E, message=bytearray(b"\x00" if minimal else b"\x040000"))
+    return None
 
 
 class SetupRig:
-    def __init__(self, mixers=True, thermostats=True):
+    def __init__(self, mixers=True, thermostats=True, minimal=()):
         self.mixers = mixers
         self.thermostats = thermostats
+        self.minimal = set(minimal)    # kinds answered with their smallest well-formed answer
         self.loop = vloop.new_loop(hold_executor=False)
         events._set_running_loop(self.loop)
         self.queue = setm.StampQueue(self.loop)
@@ -142,7 +156,9 @@ class SetupRig:
         elif p[0] == "a":
             k = int(p[1])
             if k < N:
-                self.device.handle_frame(response_for(NAMES[k], self.mixers))
+                fr = response_for(k, self.mixers, k in self.minimal)
+                if fr is not None:
+                    self.device.handle_frame(fr)
         elif p[0] == "w":
             target = loop.time() + int(p[1]) / 1000.0
             nt = loop.next_timer()
@@ -180,8 +196,8 @@ class SetupRig:
                     extra=list(self.extra))
 
 
-def run_history(events_, mixers=True, thermostats=True):
-    rig = SetupRig(mixers, thermostats)
+def run_history(events_, mixers=True, thermostats=True, minimal=()):
+    rig = SetupRig(mixers, thermostats, minimal)
     try:
         groups, times = [], []
         for e in events_:
